@@ -218,6 +218,66 @@ def gen_history(rnd, flavour="plain", length=None):
     return maxp, services, timed, s.events
 
 
+def gen_burst(rnd):
+    """several callers queue up behind one or two activations, then the activations are resolved one way or another:
+    the order of the held messages, the two kinds of waiters, waiters that leave, policy at delivery time"""
+    shared = rnd.random() < 0.4
+    services = [("w1", 1, 1), ("w2", 1 if shared else 2, 1)]
+    if rnd.random() < 0.4:
+        services.append(("w9", 9, 1))
+    timed = rnd.random() < 0.15
+    s = Sim(rnd.choice((6, 50, 50)), services)
+    for _ in range(rnd.randint(2, 4)):
+        s.connect()
+    targets = ["w1"] if rnd.random() < 0.5 else ["w1", "w2"]
+    for _ in range(rnd.randint(3, 9)):
+        live = s.live()
+        if len(live) < 2:
+            s.connect()
+            continue
+        r = rnd.random()
+        n = rnd.choice(targets)
+        if r < 0.62:
+            s.send(rnd.choice(live), n, rnd.choice((0, 0, 0, 0, 2, 2, 3, 1)))
+        elif r < 0.85:
+            s.start(rnd.choice(live), n)
+        elif r < 0.93:
+            s.disconnect(rnd.choice(live))
+        else:
+            s.connect()
+    # resolve what is pending, oldest first or newest first
+    pend = list(s.pend)
+    if rnd.random() < 0.3:
+        pend.reverse()
+    for p in pend:
+        if p not in s.pend:
+            continue
+        sid, name = p["sid"], p["name"]
+        st = s.stubs[sid]
+        r = rnd.random()
+        if r < 0.6 and st["alive"]:
+            c = s.connect(sid)
+            if rnd.random() < 0.3 and ("w9", 9, 1) in services:
+                s.request(c, 9)                         # the service also owns t.N9: class 3 is refused at delivery
+            if rnd.random() < 0.15:
+                s.request(c, 3 - int(name[1:]) if name in ("w1", "w2") else 1)     # the wrong name first
+            s.request(c, int(name[1:]))
+        elif r < 0.7:
+            s.request(rnd.choice(s.live()), int(name[1:]))          # a bystander takes the name
+        elif r < 0.9 and st["alive"]:
+            s.child_exit(sid, rnd.choice((0, 1, 3, 255)) if rnd.random() < 0.85 else None)
+        elif timed:
+            s.tick()
+    if timed and s.pend:
+        s.tick()
+    live = s.live()
+    if live:
+        for n in targets:
+            s.send(rnd.choice(live), n, 0)
+            s.start(rnd.choice(live), n)
+    return s.maxp, services, timed, s.events
+
+
 def scenarios():
     """hand-written boundary histories: (label, maxp, services, timed, events)"""
     S = []
